@@ -15,7 +15,10 @@ VALUES = {
     b'Server': [b'x', b'', b'any thing'],
     b'Accept': [b'text/plain', b'application/json', b'*/*', b'', b'text/html'],
     b'Accept-Encoding': [b'identity', b'gzip', b'gzip, deflate', b'identity;q=0', b'*;q=0', b'gzip, *;q=0', b'identity, *;q=0',
-                         b'*;q=0, identity;q=1', b'', b' ', b'gzip,identity;q=0', b'identity;q=0.5', b'*;q=0,xidentityx', b',', b'a,,b'],
+                         b'*;q=0, identity;q=1', b'', b' ', b'gzip,identity;q=0', b'identity;q=0.5', b'*;q=0,xidentityx', b',', b'a,,b',
+                         # weights in every spelling: only the exact tokens identity;q=0 and *;q=0 are fatal
+                         b'gzip;q=', b'identity;q=', b'*;q=', b'identity;q=0.0', b'*;q=0.0', b'gzip;q=0', b'identity;q=00', b'identity;q',
+                         b';q=0', b';q=', b'q=0', b'gzip;q=;q=0', b'identity;q=0;q=1', b'deflate;q=0.5, gzip;q='],
 }
 OTHER_NAMES = [b'X-Custom', b'x-custom', b'Host', b'', b'Content-Lengthy', b'Content Length', b'Accept-', b'\xc3\xa9t\xc3\xa9', b'X:Y']
 
